@@ -34,6 +34,7 @@ def declare(w):
     C = lambda h, c, f: h("Channel", c, f)
     wire = lambda h, g: G(h, g, "$wire_out")
     s.declare("Function", "__name__", STR)
+    s.declare("Function", "__qualname__", STR)      # the dotted path of the definition: equals __name__ only for module-level definitions ("f.<locals>.<lambda>" for a nested lambda)
     s.declare("Function", "$has_closure", BOOL, ghost=True)
     s.declare("Function", "$first_arg", OPT(STR), ghost=True)       # name of the first positional parameter, if any
     s.declare("Function", "$source", OPT(STR), ghost=True)          # inspect.getsource(f), None if unavailable
